@@ -7,6 +7,7 @@ import SwV.Model.C09
 import SwV.Spec.C09
 import SwV.Gen.C09
 import SwV.Lemmas.C09
+import SwV.Lemmas.C09b
 
 namespace SwV.Props.C09
 open SwV.Model.C08 SwV.Model.C09 SwV.Spec.C09 SwV.Lemmas.C09
@@ -223,6 +224,77 @@ theorem no_early_removal_honest (v : Vol) (nowNs key : Nat) (op : Op) (hop : op 
         rw [hs]
         simp [SwV.Model.C09.read, ha, lookup, hf, hr]
   · simp [ha] at h
+
+/-! ### Histories, explicitly: induction over a timed operation list with overwrites and deletes -/
+
+/-- one honest step of a history (write, OVERWRITE = write of a key that is there, DELETE, compaction, heartbeat,
+    reload) keeps the invariant: `inv_put` / `inv_maintenance` / `inv_delete` -/
+theorem inv_hstep (v : Vol) (t : Nat) (o : HOp) (hinv : Inv v) (hlm : v.lm ≤ t / nsPerSec)
+    (hvt : v.ttl = emptyTTL ∨ 0 < ttlMinutes v.ttl) (ho : HonestH v t o) : Inv (hstep v t o) := by
+  cases o with
+  | del key => exact inv_delete v t key hinv
+  | op o =>
+    cases o with
+    | put key tt hasLM lm =>
+      obtain ⟨⟨h1, h2, h3⟩, _⟩ := ho
+      subst h1 h2
+      exact inv_put v t key tt hinv h3 hvt
+    | compact => exact inv_maintenance v t .compact hinv ho.1 (by intro k t' b l h; cases h) hlm
+    | heartbeat => exact inv_maintenance v t .heartbeat hinv ho.1 (by intro k t' b l h; cases h) hlm
+    | reload mtime => exact inv_maintenance v t (.reload mtime) hinv ho.1 (by intro k t' b l h; cases h) hlm
+
+/-- the induction: along every honest timed history the invariant holds (and the volume TTL never changes) -/
+theorem inv_history (h : List (Nat × HOp)) : ∀ (v : Vol) (last : Nat), Inv v → v.lm ≤ last / nsPerSec →
+    (v.ttl = emptyTTL ∨ 0 < ttlMinutes v.ttl) → HonestRun v last h →
+    Inv (hrun v h) ∧ (hrun v h).ttl = v.ttl := by
+  induction h with
+  | nil => intro v last hinv _ _ _; exact ⟨hinv, rfl⟩
+  | cons x r ih =>
+    intro v last hinv hlm hvt hh
+    obtain ⟨t, o⟩ := x
+    obtain ⟨hle, ho, hr⟩ := hh
+    have hlm' : v.lm ≤ t / nsPerSec := Nat.le_trans hlm (Nat.div_le_div_right hle)
+    have httl := hstep_ttl v t o
+    have IH := ih (hstep v t o) t (inv_hstep v t o hinv hlm' hvt ho) (lm_hstep v t o hlm' ho) (by rw [httl]; exact hvt) hr
+    exact ⟨IH.1, IH.2.trans httl⟩
+
+/-- MAIN (histories): for EVERY list of honest operations — writes with a server-stamped LastModified and a TTL that is
+    empty or not longer than the volume's, overwrites, deletes, compactions, heartbeats, reloads, at clocks that never
+    run backwards — from the empty volume, at EVERY prefix of the history: neither a compaction nor an expiry-driven
+    heartbeat executed at any time `nowNs` removes a needle that a read one second later would return (the read one
+    second later still returns it afterwards). -/
+theorem no_early_removal_history (t0 : TTL) (lim : Nat) (ht0 : t0 = emptyTTL ∨ 0 < ttlMinutes t0)
+    (hov : ttlMinutes t0 * 60 < 4294967296) (h : List (Nat × HOp)) (hh : HonestRun ⟨t0, 0, [], true, lim⟩ 0 h) :
+    ∀ pre rest, h = pre ++ rest → ∀ (nowNs key : Nat) (op : Op), op = .compact ∨ op = .heartbeat →
+      SwV.Model.C09.read (hrun ⟨t0, 0, [], true, lim⟩ pre) key (nowNs + nsPerSec) = .ok →
+      SwV.Model.C09.read (step (hrun ⟨t0, 0, [], true, lim⟩ pre) nowNs op) key (nowNs + nsPerSec) = .ok := by
+  intro pre rest hpr nowNs key op hop hread
+  subst hpr
+  have hp := honestRun_prefix pre rest _ _ hh
+  obtain ⟨hinv, httl⟩ := inv_history pre ⟨t0, 0, [], true, lim⟩ 0 (inv_init t0 lim) (Nat.zero_le _) ht0 hp
+  exact no_early_removal_honest _ nowNs key op hop hinv (by rw [httl]; exact hov) hread
+
+/-- non-vacuity: a 1-hour volume; write key 1 at second 5, OVERWRITE it at second 6, write key 2, DELETE key 2, compact
+    at second 8, heartbeat at second 9, reload: an honest history; key 1 is readable at the end -/
+def exampleHistory : List (Nat × HOp) := [
+  (5 * nsPerSec, .op (.put 1 emptyTTL true 5)),
+  (6 * nsPerSec, .op (.put 1 ⟨30, 1⟩ true 6)),
+  (6 * nsPerSec + 7, .op (.put 2 emptyTTL true 6)),
+  (7 * nsPerSec, .del 2),
+  (8 * nsPerSec, .op .compact),
+  (9 * nsPerSec, .op .heartbeat),
+  (9 * nsPerSec, .op (.reload 9))]
+
+example : HonestRun ⟨⟨1, 2⟩, 0, [], true, 1000⟩ 0 exampleHistory ∧
+    SwV.Model.C09.read (hrun ⟨⟨1, 2⟩, 0, [], true, 1000⟩ exampleHistory) 1 (10 * nsPerSec) = .ok ∧
+    SwV.Model.C09.read (hrun ⟨⟨1, 2⟩, 0, [], true, 1000⟩ exampleHistory) 2 (10 * nsPerSec) = .notfound := by
+  refine ⟨⟨by decide, ⟨⟨rfl, by decide, Or.inl rfl⟩, fun m h => by cases h⟩,
+    by decide, ⟨⟨rfl, by decide, Or.inr (by decide)⟩, fun m h => by cases h⟩,
+    by decide, ⟨⟨rfl, by decide, Or.inl rfl⟩, fun m h => by cases h⟩,
+    by decide, trivial,
+    by decide, ⟨trivial, fun m h => by cases h⟩,
+    by decide, ⟨trivial, fun m h => by cases h⟩,
+    by decide, ⟨(by show (_ : Nat) ≤ 9; decide), fun m h => by cases h; decide⟩, trivial⟩, by decide, by decide⟩
 
 /-! ### Filer seconds → volume TTL -/
 
